@@ -315,11 +315,11 @@ def replay_all(run: Run, cases: list, workers: int, stats: dict):
 
 # families of each tier; statement bounds, schedules and MaxOps of every family: Loader.tla (MaxTotal, Sched, MaxOps)
 TIERS = {
-    "quick": ["graph-q", "wild-q", "retarget-q", "fine", "side", "selfcyc", "twostar", "apicyc"],
-    "thorough": ["graph-q", "wild", "retarget", "fine", "side", "selfcyc", "twostar", "apicyc"],
+    "quick": ["graph-q", "wild-q", "retarget-q", "fine", "side", "selfcyc", "twostar", "apicyc", "aliasstar"],
+    "thorough": ["graph-q", "wild", "retarget", "fine", "side", "selfcyc", "twostar", "apicyc", "aliasstar"],
 }
 PRESENT = {"graph-q": ["p", "p.a", "p.b", "q"], "graph": ["p", "p.a", "p.b", "q"], "fine": ["p", "p.a", "p.b", "q"],
-           "wild": ["p", "p.a", "p.b"], "wild-q": ["p", "p.a", "p.b"], "retarget": ["p", "p.a", "p.b"], "retarget-q": ["p", "p.a", "p.b"], "selfcyc": ["p", "p.a", "p.b"], "twostar": ["p", "p.a", "p.b"], "apicyc": ["p", "p.a", "p.b"], "side": ["p", "q", "r"]}
+           "wild": ["p", "p.a", "p.b"], "wild-q": ["p", "p.a", "p.b"], "retarget": ["p", "p.a", "p.b"], "retarget-q": ["p", "p.a", "p.b"], "selfcyc": ["p", "p.a", "p.b"], "twostar": ["p", "p.a", "p.b"], "apicyc": ["p", "p.a", "p.b"], "aliasstar": ["p", "p.a", "p.b"], "side": ["p", "q", "r"]}
 
 
 # fixed defect (name of the old behaviour in the spec) -> family on which TLC must still exhibit it when the old behaviour is switched on
@@ -359,12 +359,16 @@ def main(tier: str, replay: str | None = None):
                             constants={"FAMILIES": fam_set(["fine"]), "SCALE": tier, "CAP": 2, "OLD": ""})
         # model-only regression: the OLD behaviour of each fixed defect (Loader.tla / Alias.tla constant Old) on the programs of
         # its pattern - TLC must still exhibit the defect there (the same programs are in the verified domain of the main run)
-        jold = {name: pool.submit(tlc.run, "Loader", "Loader_c06.cfg", workers=2, timeout=6000, heap="4g",
+        def regressions():
+            # one after the other (a single TLC slot at a time), in parallel with the main runs
+            return {name: tlc.run("Loader", "Loader_c06.cfg", workers=3, timeout=6000, heap="4g",
                                   constants={"FAMILIES": fam_set([fam]), "SCALE": "quick", "CAP": 0, "OLD": f'"{name}"', "DOMAIN": "old", "GEN": "FALSE", "TRACE": "FALSE"})
-                for name, fam in REGRESSION.items()}
+                    for name, fam in REGRESSION.items()}
+
+        jold = pool.submit(regressions)
     model = {}
-    for name, job in jold.items():
-        r = tlc.must(job.result(), allow_violations=True)
+    for name, r in jold.result().items():
+        tlc.must(r, allow_violations=True)
         run.add_tlc(r)
         model["old:" + name] = r.violated
         if not r.violated:
